@@ -15,6 +15,8 @@ import (
 	"verifharness/refwire"
 )
 
+var traceRecv = os.Getenv("VERIF_TRACE") != ""
+
 // BlockKey identifies a block request on the wire.
 type BlockKey struct{ Index, Begin, Length uint32 }
 
@@ -58,6 +60,7 @@ type Remote struct {
 	everReq map[BlockKey]bool
 	// --- storrent's state as told to us ---
 	stChoking    bool // storrent chokes us
+	stChokeW     bool // its choke state changed since the last cut
 	stInterested bool
 	stHave       map[uint32]bool
 	stHaveAll    bool
@@ -66,8 +69,12 @@ type Remote struct {
 	nonAdvertSeen bool // a message other than port/ext-handshake/advert seen
 	stExt        *refwire.Ext0
 	// --- our requests to storrent (leecher role) ---
-	ours  map[BlockKey]int  // outstanding (count)
-	oursW map[BlockKey]bool // cancelled/choked-away in this window (may still be answered)
+	ours       map[BlockKey]int  // certainly outstanding (count): must not be answered twice, may be answered once
+	opt        map[BlockKey]int  // sent in an ambiguous choke state: may or may not be served
+	sticky     map[BlockKey]int  // sent while our view of storrent's stream was stale (reader paused): may be served whatever older chokes we read later
+	cancOurs   map[BlockKey]int  // cancelled by us, not yet rejected (fast) / maybe crossing
+	cancW      map[BlockKey]bool // cancelled in this window: a Piece may still cross
+	pendChoked []BlockKey        // non-fast: sent while we knew we were choked; dropped unless an Unchoke arrives before the cut
 	// --- PEX seen from storrent ---
 	pexAnnounced map[netip.AddrPort]bool
 	PexRounds    int
@@ -77,9 +84,11 @@ type Remote struct {
 	closed  bool
 	quit    chan struct{}
 	pauseUntil time.Time
+	lastCut    time.Time
 	readErr error
 	done    chan struct{}
 	HonestAdvert bool // advertisement followed the protocol (remote view of availability is meaningful)
+	weInterested bool
 	MetaKnown bool // storrent had metadata when the connection started (bitfield rules apply)
 }
 
@@ -105,7 +114,7 @@ func (tr *Tor) Connect(o RemoteOpts) *Remote {
 	r := &Remote{Tr: tr, Idx: i, Name: fmt.Sprintf("r%d", i), conn: b, ID: id, Addr: addr, Opt: o,
 		choking: true, chokingP: true, stChoking: true,
 		fastSet: map[uint32]bool{}, out: map[BlockKey]int{}, outP: map[BlockKey]bool{}, canc: map[BlockKey]bool{}, everReq: map[BlockKey]bool{},
-		stHave: map[uint32]bool{}, ours: map[BlockKey]int{}, oursW: map[BlockKey]bool{}, pexAnnounced: map[netip.AddrPort]bool{},
+		stHave: map[uint32]bool{}, ours: map[BlockKey]int{}, opt: map[BlockKey]int{}, sticky: map[BlockKey]int{}, cancOurs: map[BlockKey]int{}, cancW: map[BlockKey]bool{}, pexAnnounced: map[netip.AddrPort]bool{},
 		Counts: map[string]int{}, done: make(chan struct{}), quit: make(chan struct{}), MetaKnown: tr.T.InfoComplete()}
 	np := tr.Geo.NumPieces()
 	r.adv = make([]bool, np)
@@ -194,9 +203,21 @@ func clip(b []byte, n int) []byte {
 
 func (r *Remote) closeWindow() {
 	r.mu.Lock()
+	if time.Now().Before(r.pauseUntil) {
+		// we are not reading: what storrent sent before this cut has not reached the monitor yet,
+		// so the exemption windows stay open until a cut at which we have caught up
+		r.mu.Unlock()
+		return
+	}
 	r.window = false
+	r.stChokeW = false
+	r.lastCut = time.Now()
 	r.outP = map[BlockKey]bool{}
-	r.oursW = map[BlockKey]bool{}
+	r.cancW = map[BlockKey]bool{}
+	if !r.Opt.Fast {
+		r.cancOurs = map[BlockKey]int{}
+	}
+	r.pendChoked = nil
 	copy(r.advP, r.adv)
 	r.chokingP = r.choking
 	r.mu.Unlock()
@@ -243,6 +264,9 @@ func (r *Remote) onRecv(m refwire.Msg) {
 	}
 	r.Counts[string(m.Kind)]++
 	r.Tr.Sw.C.Count("recv:"+string(m.Kind), 1)
+	if traceRecv {
+		r.Tr.Sw.Act("%s <- %s idx=%d begin=%d length=%d len=%d sub=%d", r.Name, m.Kind, m.Index, m.Begin, m.Length, len(m.Data), m.Sub)
+	}
 	fastBoth := r.Opt.Fast
 	isAdvert := m.Kind == refwire.KBitfield || m.Kind == refwire.KHaveAll || m.Kind == refwire.KHaveNone
 	preamble := m.Kind == refwire.KPort || (m.Kind == refwire.KExtended && m.Sub == 0) || m.Kind == refwire.KKeepAlive
@@ -255,15 +279,20 @@ func (r *Remote) onRecv(m refwire.Msg) {
 	switch m.Kind {
 	case refwire.KChoke:
 		r.stChoking = true
+		r.stChokeW = true
 		// requests of ours are choked away (fast: storrent rejects them explicitly; either way no data may follow)
-		for k := range r.ours {
-			r.oursW[k] = true
-		}
 		if !fastBoth {
 			r.ours = map[BlockKey]int{}
+			r.opt = map[BlockKey]int{}
+			r.cancOurs = map[BlockKey]int{}
 		}
 	case refwire.KUnchoke:
 		r.stChoking = false
+		r.stChokeW = true
+		for _, k := range r.pendChoked {
+			r.opt[k]++ // the unchoke may have been sent before or after storrent saw these
+		}
+		r.pendChoked = nil
 	case refwire.KInterested:
 		r.stInterested = true
 	case refwire.KNotInterested:
@@ -336,15 +365,10 @@ func (r *Remote) onRecv(m refwire.Msg) {
 			r.viol("C11", "conformance", "fast-message-without-fast", "reject without fast")
 		}
 		k := BlockKey{m.Index, m.Begin, m.Length}
-		if r.ours[k] > 0 {
-			r.ours[k]--
-			if r.ours[k] == 0 {
-				delete(r.ours, k)
-			}
+		switch {
+		case dec(r.cancOurs, k), dec(r.ours, k), dec(r.opt, k), dec(r.sticky, k):
 			r.Tr.Sw.C.Count("rejects_for_our_requests", 1)
-		} else if r.oursW[k] {
-			r.Tr.Sw.C.Count("rejects_for_our_requests", 1)
-		} else {
+		default:
 			r.viol("C16", "upload", "reject-unsolicited", fmt.Sprintf("reject for %v which we have not outstanding", k))
 		}
 	case refwire.KPiece:
@@ -411,39 +435,52 @@ func (r *Remote) onPiece(m refwire.Msg) {
 	sw := r.Tr.Sw
 	k := BlockKey{m.Index, m.Begin, uint32(len(m.Data))}
 	sw.C.Count("pieces_received", 1)
-	// C01/C16: payload must be the verified content of the range
-	if int(m.Index) < g.NumPieces() {
-		off := int64(m.Index)*int64(g.PieceLen) + int64(m.Begin)
-		if off+int64(len(m.Data)) <= g.Length && int(m.Begin)+len(m.Data) <= g.PieceSize(int(m.Index)) {
-			tr := g.Truth(off, len(m.Data))
-			for i := range tr {
-				if tr[i] != m.Data[i] {
-					r.viol("C16", "upload", "piece-payload-not-truth", fmt.Sprintf("piece %d+%d (%d bytes) differs from the true content at +%d", m.Index, m.Begin, len(m.Data), i))
-					r.viol("C01", "content", "upload-payload-not-truth", fmt.Sprintf("piece %d+%d (%d bytes) sent to a peer differs from the true content at +%d", m.Index, m.Begin, len(m.Data), i))
-					break
-				}
+	// C01/C16: payload must be the verified content of the range.  storrent maps (index, begin) to the flat
+	// torrent offset index*piecelength+begin, so a begin beyond the piece names bytes of the next piece;
+	// the statement only demands that what is sent is the true content of the range that was named.
+	off := int64(m.Index)*int64(g.PieceLen) + int64(m.Begin)
+	if off+int64(len(m.Data)) <= g.Length && off >= 0 {
+		tr := g.Truth(off, len(m.Data))
+		for i := range tr {
+			if tr[i] != m.Data[i] {
+				r.viol("C16", "upload", "piece-payload-not-truth", fmt.Sprintf("piece %d+%d (%d bytes) differs from the true content at +%d", m.Index, m.Begin, len(m.Data), i))
+				r.viol("C01", "content", "upload-payload-not-truth", fmt.Sprintf("piece %d+%d (%d bytes) sent to a peer differs from the true content at +%d", m.Index, m.Begin, len(m.Data), i))
+				break
 			}
-		} else {
-			r.viol("C16", "upload", "piece-beyond-content", fmt.Sprintf("piece %d+%d (%d bytes) extends beyond the piece/torrent", m.Index, m.Begin, len(m.Data)))
 		}
+		sw.C.Count("piece_payloads_compared", 1)
 	} else {
-		r.viol("C16", "upload", "piece-beyond-content", fmt.Sprintf("piece index %d out of range", m.Index))
+		r.viol("C16", "upload", "piece-beyond-content", fmt.Sprintf("piece %d+%d (%d bytes) extends beyond the torrent", m.Index, m.Begin, len(m.Data)))
 	}
 	if r.stChoking {
 		r.viol("C16", "upload", "piece-while-choked", fmt.Sprintf("piece %v received after storrent's Choke", k))
 	}
-	if r.ours[k] > 0 {
-		r.ours[k]--
-		if r.ours[k] == 0 {
-			delete(r.ours, k)
-		}
+	switch {
+	case dec(r.ours, k), dec(r.opt, k), dec(r.sticky, k):
 		sw.C.Count("pieces_answering_our_requests", 1)
-	} else if r.oursW[k] {
-		delete(r.oursW, k) // cancel crossed with the answer
+	case r.cancW[k]:
+		dec(r.cancOurs, k) // our cancel crossed with the answer
 		sw.C.Count("pieces_crossing_cancel", 1)
-	} else {
+	default:
 		r.viol("C16", "upload", "piece-unsolicited", fmt.Sprintf("piece %v matches no outstanding request of ours (never sent, already answered, cancelled and quiesced, or choked away)", k))
 	}
+}
+
+// staleView: we have not read everything storrent sent up to the last cut (reader paused),
+// so what we believe about its choke state may be out of date.  Call with mu held.
+func (r *Remote) staleView() bool {
+	return r.pauseUntil.After(r.lastCut) || time.Now().Before(r.pauseUntil)
+}
+
+func dec(m map[BlockKey]int, k BlockKey) bool {
+	if m[k] > 0 {
+		m[k]--
+		if m[k] == 0 {
+			delete(m, k)
+		}
+		return true
+	}
+	return false
 }
 
 func (r *Remote) onExtended(m refwire.Msg) {
@@ -584,15 +621,29 @@ func (r *Remote) Send(m refwire.Msg) error {
 		r.openWindow()
 		r.answer(BlockKey{m.Index, m.Begin, m.Length})
 	case refwire.KRequest:
-		r.ours[BlockKey{m.Index, m.Begin, m.Length}]++
+		k := BlockKey{m.Index, m.Begin, m.Length}
+		switch {
+		case r.Opt.Fast:
+			r.ours[k]++ // always answered: Piece or Reject
+		case r.staleView():
+			r.sticky[k]++
+		case r.stChoking && !r.stChokeW:
+			r.pendChoked = append(r.pendChoked, k)
+			r.Tr.Sw.C.Count("our_requests_while_choked", 1)
+		case r.stChoking || r.stChokeW:
+			r.opt[k]++
+		default:
+			r.ours[k]++
+		}
+		r.Tr.Sw.C.Count("our_requests", 1)
 	case refwire.KCancel:
 		k := BlockKey{m.Index, m.Begin, m.Length}
-		if r.ours[k] > 0 {
-			r.ours[k]--
-			if r.ours[k] == 0 {
-				delete(r.ours, k)
-			}
-			r.oursW[k] = true
+		if dec(r.ours, k) {
+			r.cancOurs[k]++
+			r.cancW[k] = true
+			r.window = true
+		} else if dec(r.opt, k) || dec(r.sticky, k) {
+			r.cancW[k] = true
 			r.window = true
 		}
 	}
@@ -723,12 +774,41 @@ func (r *Remote) OurOutstanding() int {
 	}
 	return n
 }
+
+// Paused reports whether the remote is currently not reading.
+func (r *Remote) Paused() bool {
+	r.mu.Lock()
+	defer r.mu.Unlock()
+	return time.Now().Before(r.pauseUntil)
+}
 func (r *Remote) StExt() *refwire.Ext0 { r.mu.Lock(); defer r.mu.Unlock(); return r.stExt }
 
 // PauseReading makes the remote stop reading for d (virtual time): storrent's writer congests.
 func (r *Remote) PauseReading(d time.Duration) {
 	r.mu.Lock()
-	r.pauseUntil = time.Now().Add(d)
+	if t := time.Now().Add(d); t.After(r.pauseUntil) {
+		r.pauseUntil = t // pauses only extend: the reader may already be asleep until the old deadline
+	}
 	r.mu.Unlock()
 	r.Tr.Sw.Act("%s stops reading for %v", r.Name, d)
+}
+
+// noteRequest records a request of ours without logging an action (floods).
+func (r *Remote) noteRequest(m refwire.Msg) {
+	r.mu.Lock()
+	k := BlockKey{m.Index, m.Begin, m.Length}
+	switch {
+	case r.Opt.Fast:
+		r.ours[k]++
+	case r.staleView():
+		r.sticky[k]++
+	case r.stChoking && !r.stChokeW:
+		r.pendChoked = append(r.pendChoked, k)
+	case r.stChoking || r.stChokeW:
+		r.opt[k]++
+	default:
+		r.ours[k]++
+	}
+	r.mu.Unlock()
+	r.Tr.Sw.C.Count("our_requests", 1)
 }
